@@ -144,12 +144,19 @@ class _Mut(flow.Client):
 def _membership_precheck(f: FuncInfo, call: ast.Call, recv_txt: str) -> bool:
     '''Before `call`, the function raises under a test containing `<x> in <recv>` (directly, inside any(...),
     or inside a loop over the labels) — the duplicate check that makes the later append/extend infallible.'''
+    from sfa.rules.blockrules import _enclosing_ifs
+    call_chain = [(id(i), pol) for i, pol in _enclosing_ifs(f.node, call)]
     for n in walk_local(f.node):
         if getattr(n, 'lineno', 10**9) >= call.lineno:
             continue
         if isinstance(n, ast.If):
             has_raise = any(isinstance(x, ast.Raise) for b in n.body for x in ast.walk(b))
             if not has_raise:
+                continue
+            # the check must be on the way to the call: every branch it sits in also encloses the call (a check in the sibling arm of an
+            # if / elif does not guard this arm)
+            chain = [(id(i), pol) for i, pol in _enclosing_ifs(f.node, n)]
+            if chain != call_chain[:len(chain)]:
                 continue
             for c in ast.walk(n.test):
                 if isinstance(c, ast.Compare) and any(isinstance(o, ast.In) for o in c.ops) \
